@@ -129,6 +129,9 @@ pub struct SProblem {
     pub relations: Vec<SRelation>,
     /// pragmatic objectives (raw JSON, list of objective objects); empty = reader default
     pub objectives: Vec<Value>,
+    /// `plan.clustering` (raw JSON) or nothing
+    #[serde(default)]
+    pub clustering: Option<Value>,
 }
 
 /// seconds since epoch -> RFC3339 (January 1970 only)
@@ -321,6 +324,9 @@ impl SProblem {
                     })
                     .collect::<Vec<_>>()
             );
+        }
+        if let Some(clustering) = &self.clustering {
+            plan["clustering"] = clustering.clone();
         }
         let mut problem = json!({
             "plan": plan,
@@ -684,7 +690,7 @@ pub fn gen_problem(rng: &mut Rng, cfg: &GenCfg) -> SProblem {
         }
     }
 
-    SProblem { n: n_locs, profiles, jobs, vehicles, relations: vec![], objectives: vec![] }
+    SProblem { n: n_locs, profiles, jobs, vehicles, relations: vec![], objectives: vec![], clustering: None }
 }
 
 // ---------------------------------------------------------------------------------------------------
@@ -864,3 +870,26 @@ pub fn derive_relations(sp: &SProblem, sol: &Value, rseed: u64) -> Vec<SRelation
     rels
 }
 
+
+/// a random vicinity clustering definition (`plan.clustering`) for a generated problem: thresholds wide enough to
+/// cluster neighbouring jobs of the integer matrices, both visiting policies, all serving policies, and - in two of
+/// three cases - an explicit filtering list (possibly empty) next to the jobs which relations exclude implicitly
+pub fn gen_clustering(rng: &mut Rng, sp: &SProblem) -> Value {
+    let serving = match rng.below(3) {
+        0 => json!({"type": "original", "parking": rng.range(0, 20)}),
+        1 => json!({"type": "multiplier", "value": 1, "parking": rng.range(0, 20)}),
+        _ => json!({"type": "fixed", "value": rng.range(1, 20), "parking": rng.range(0, 20)}),
+    };
+    let mut c = json!({
+        "type": "vicinity",
+        "profile": {"matrix": sp.profiles[0].name},
+        "threshold": {"duration": rng.range(20, 120), "distance": rng.range(20, 120), "maxJobsPerCluster": rng.range(2, 5)},
+        "visiting": *rng.pick(&["continue", "return"]),
+        "serving": serving,
+    });
+    if rng.chance(2, 3) {
+        let ids: Vec<String> = sp.jobs.iter().filter(|_| rng.chance(1, 5)).map(|j| j.id.clone()).collect();
+        c["filtering"] = json!({"excludeJobIds": ids});
+    }
+    c
+}
